@@ -26,12 +26,13 @@ import (
 )
 
 type c06Backend struct {
-	accepts int64
-	mu      sync.Mutex
-	addr    string
-	ln      net.Listener
-	idx     int
-	hello   []byte
+	stubborn int32 // while set, a connection whose peer has finished is kept open for a while (a backend that ignores the FIN)
+	accepts  int64
+	mu       sync.Mutex
+	addr     string
+	ln       net.Listener
+	idx      int
+	hello    []byte
 }
 
 func (b *c06Backend) serve() {
@@ -51,6 +52,9 @@ func (b *c06Backend) serve() {
 				for {
 					n, err := c.Read(one)
 					if err != nil {
+						if err == io.EOF && atomic.LoadInt32(&b.stubborn) == 1 {
+							time.Sleep(2500 * time.Millisecond)
+						}
 						return
 					}
 					if n == 1 && one[0] == 'H' {
@@ -309,6 +313,8 @@ func runC06tcp(line string) string {
 			}
 		case 'r':
 			if arg < nb {
+				// the backend does not react to a FIN for a while: the removal must close the client's side by itself
+				atomic.StoreInt32(&bes[arg].stubborn, 1)
 				p.OnSvcHostRemove([]*host.Host{host.New(bes[arg].addr)})
 				closed := 0
 				for _, k := range ks {
@@ -324,6 +330,7 @@ func runC06tcp(line string) string {
 						}
 					}
 				}
+				atomic.StoreInt32(&bes[arg].stubborn, 0)
 				res = fmt.Sprintf("closed=%d", closed)
 			}
 		case 'a':
